@@ -2,6 +2,7 @@ package limitsh
 
 import (
 	"fmt"
+	"math/big"
 
 	dtypes "github.com/ovrclk/akash/x/deployment/types"
 )
@@ -21,39 +22,24 @@ type Table struct {
 // BaseDSeq is the sequence number of the deployment that exists in the base state.
 const BaseDSeq = 7
 
-func twoPart(x uint64) uint64 {
-	if x == 0 {
-		return 1 << 62
-	}
-	return x & (^x + 1)
-}
-
-// chooseUnit: 1 if every total the spec computes fits TLC's integers, otherwise the largest power of two (at
-// most 2^20) dividing all three limits of the resource.
+// chooseUnit: 1 if every total the spec computes fits TLC's integers, otherwise 2^20 (limits then have an `a` and
+// a `b` part like every other amount; they need not be multiples of the unit).
 func chooseUnit(name string, minU, maxU, maxG uint64, maxCount, maxUnits uint64) (int64, error) {
 	fits := func(u uint64) bool {
-		if maxU/u > uint64(linMax) || maxG/u > uint64(linMax) {
+		if maxU/u+1 > uint64(linMax) || maxG/u+1 > uint64(linMax) {
 			return false
 		}
-		return (maxU/u)*maxCount*maxUnits <= uint64(linMax)
+		return (maxU/u+1)*maxCount*maxUnits <= uint64(linMax)
 	}
 	if fits(1) {
 		return 1, nil
 	}
-	u := twoPart(minU)
-	for _, x := range []uint64{maxU, maxG} {
-		if t := twoPart(x); t < u {
-			u = t
-		}
+	const u = 1 << 20
+	if !fits(u) {
+		return 0, fmt.Errorf("limits for %s (min %d, max %d, group max %d) with %d replicas x %d units exceed what "+
+			"32-bit integers in units of 2^20 can total: extend limitsh.chooseUnit", name, minU, maxU, maxG, maxCount, maxUnits)
 	}
-	if u > 1<<20 {
-		u = 1 << 20
-	}
-	if u < 1024 || !fits(u) {
-		return 0, fmt.Errorf("limits for %s (min %d, max %d, group max %d) cannot be scaled into 32-bit integers "+
-			"exactly (common power of two %d): extend limitsh.chooseUnit", name, minU, maxU, maxG, u)
-	}
-	return int64(u), nil
+	return u, nil
 }
 
 func NewTable(c *Chain) (*Table, error) {
@@ -88,22 +74,32 @@ func NewTable(c *Chain) (*Table, error) {
 	return t, nil
 }
 
-// TLA returns the constants of Limits.tla for this table (amounts divided by their unit).
+// TLA returns the constants of Limits.tla for this table: every resource limit as an (a, b) pair, a*Unit + b.
 func (t *Table) TLA() map[string]interface{} {
 	c := t.raw
-	d := func(x uint64, r string) int64 { return int64(x / uint64(t.Unit[r])) }
-	return map[string]interface{}{
+	out := map[string]interface{}{
 		"Denom": t.NetDenom, "DepositDenom": t.DepDenom, "OtherDenom": OtherDenom,
 		"UnitCPU": t.Unit["cpu"], "UnitMem": t.Unit["mem"], "UnitSto": t.Unit["sto"],
-		"MinUnitCPU": d(uint64(c.MinUnitCPU), "cpu"), "MaxUnitCPU": d(uint64(c.MaxUnitCPU), "cpu"), "MaxGroupCPU": d(c.MaxGroupCPU, "cpu"),
-		"MinUnitMem": d(c.MinUnitMemory, "mem"), "MaxUnitMem": d(c.MaxUnitMemory, "mem"), "MaxGroupMem": d(c.MaxGroupMemory, "mem"),
-		"MinUnitSto": d(c.MinUnitStorage, "sto"), "MaxUnitSto": d(c.MaxUnitStorage, "sto"), "MaxGroupSto": d(c.MaxGroupStorage, "sto"),
 		"MinUnitCount": int64(c.MinUnitCount), "MaxUnitCount": int64(c.MaxUnitCount),
 		"MinUnitPrice": int64(c.MinUnitPrice), "MaxUnitPrice": int64(c.MaxUnitPrice),
 		"MaxGroupCount": int64(c.MaxGroupCount), "MaxGroupUnits": int64(c.MaxGroupUnits),
 		"VersionLen": t.VersionLen, "MinDeposit": t.MinDeposit, "BaseDSeq": int64(BaseDSeq),
 		"Funds": Funds - t.MinDeposit, // the signer's balance in the base state (after the base deployment's deposit)
 	}
+	pair := func(name string, x uint64, r string) {
+		v := abstract(new(big.Int).SetUint64(x), t.Unit[r], nil)
+		out[name], out[name+"B"] = v.A, v.B
+	}
+	pair("MinUnitCPU", uint64(c.MinUnitCPU), "cpu")
+	pair("MaxUnitCPU", uint64(c.MaxUnitCPU), "cpu")
+	pair("MaxGroupCPU", c.MaxGroupCPU, "cpu")
+	pair("MinUnitMem", c.MinUnitMemory, "mem")
+	pair("MaxUnitMem", c.MaxUnitMemory, "mem")
+	pair("MaxGroupMem", c.MaxGroupMemory, "mem")
+	pair("MinUnitSto", c.MinUnitStorage, "sto")
+	pair("MaxUnitSto", c.MaxUnitStorage, "sto")
+	pair("MaxGroupSto", c.MaxGroupStorage, "sto")
+	return out
 }
 
 // Raw is the table in the code's own numbers (for the evidence file and the docs).
